@@ -1,4 +1,5 @@
 import MM.Props.C12
+import MM.Props.C15
 
 #print axioms MM.Search.C12_evaluated_scale
 #print axioms MM.Search.C12_exhaustive_scale
@@ -7,3 +8,10 @@ import MM.Props.C12
 #print axioms MM.Search.C12_greedy_scale_len
 #print axioms MM.Search.C12_greedy_loop_scale
 #print axioms MM.Search.C12_rename
+
+#print axioms MM.Data.C12_cell_perm
+#print axioms MM.Data.C12_dates_perm
+#print axioms MM.Data.C12_mean_perm
+#print axioms MM.Data.C12_pivot_perm
+#print axioms MM.Data.C12_pivot_dates
+#print axioms MM.Data.C12_pivot_scale
